@@ -638,6 +638,16 @@ def run(ctx):
     else:
         scfgs = sys_configs(ctx.tier)
         s0 = _pool_map(F.sys_job, [{"cfg": c, "dir": os.path.join(base, f"sys0-{i}"), "mode": mode} for i, c in enumerate(scfgs)], procs)
+        # a tracer that attached too late (loaded machine) misses the begin marker: such a run says nothing, repeat it
+        for attempt in range(3):
+            redo = [i for i, r0 in enumerate(s0) if not r0.get("begin")]
+            if not redo:
+                break
+            again = _pool_map(F.sys_job, [{"cfg": scfgs[i], "dir": os.path.join(base, f"sys0-{i}-r{attempt}"), "mode": mode}
+                                          for i in redo], max(1, procs // 2))
+            for i, r in zip(redo, again):
+                s0[i] = r
+            ctx.extra["sys_run0_repeated"] = ctx.extra.get("sys_run0_repeated", 0) + len(redo)
         jobs = []
         for i, (c, r0) in enumerate(zip(scfgs, s0)):
             if not r0.get("begin"):
